@@ -17,7 +17,8 @@ package props
 //
 // Observation
 //   err:<kind>                         Optimise/BuildIndex/Align failed
-//   P=k,n,e,off H=<hits>               filter parameters chosen by Optimise, then all hits of
+//   P=k,n,e,off O=w,d H=<hits>         filter parameters chosen by Optimise; the float-derived inputs of its
+//                                      search (minWordSize, initial seedDiffs); then all hits of
 //                                      Align(false) and Align(true), ';' separated, each
 //                                      strand:Abpos:Aepos:Bbpos:Bepos:Score:ErrE12:LowDiag:HighDiag
 //                                      (strand 0 = forward, 1 = complement; B coordinates are in the
@@ -47,6 +48,7 @@ import (
 	"github.com/biogo/biogo/alphabet"
 	"github.com/biogo/biogo/morass"
 	"github.com/biogo/biogo/seq/linear"
+	"github.com/biogo/biogo/util"
 
 	"verif/harness/hx"
 )
@@ -64,8 +66,40 @@ func c15Tmp() string {
 	return c15TmpDir
 }
 
+// po <tlen> <qlen> <minLen> <minIdMillionths> <maxMemMB> <tubeOffset>: Optimise alone, on sequences of
+// the given lengths (qlen 0 = self comparison).  Observation: P=k,n,e,off O=w,d  or  err:optimise O=w,d
+// or err:args (argument checks of Optimise).
+func c15ExecOptimise(f []string) string {
+	tlen, qlen, minLen := hx.Atoi(f[1]), hx.Atoi(f[2]), hx.Atoi(f[3])
+	minID := float64(hx.Atoi(f[4])) / 1e6
+	var maxMem *uintptr
+	if mb := hx.Atoi(f[5]); mb > 0 {
+		v := uintptr(mb) << 20
+		maxMem = &v
+	}
+	target := &linear.Seq{Seq: make(alphabet.Letters, tlen)}
+	query := target
+	if qlen > 0 {
+		query = &linear.Seq{Seq: make(alphabet.Letters, qlen)}
+	}
+	pa := pals.New(target, query, qlen == 0, nil, hx.Atoi(f[6]), maxMem, nil)
+	mws := int(util.Log4(float64(target.Len())) - util.Log4(pals.MaxAvgIndexListLen) + 0.5)
+	sd0 := int(float64(minLen) * (1 - minID))
+	if err := pa.Optimise(minLen, minID); err != nil {
+		if strings.Contains(err.Error(), "failed to find") {
+			return fmt.Sprintf("err:optimise O=%d,%d", mws, sd0)
+		}
+		return "err:args"
+	}
+	fp := pa.FilterParams
+	return fmt.Sprintf("P=%d,%d,%d,%d O=%d,%d", fp.WordSize, fp.MinMatch, fp.MaxError, fp.TubeOffset, mws, sd0)
+}
+
 func c15Exec(input string) string {
 	f := hx.Fields(input)
+	if len(f) == 7 && f[0] == "po" {
+		return c15ExecOptimise(f)
+	}
 	if len(f) != 8 || f[0] != "pw" {
 		panic("c15: bad input")
 	}
@@ -89,14 +123,20 @@ func c15Exec(input string) string {
 	defer m.CleanUp()
 	pa := pals.New(target, query, self, m, 0, maxMem, nil)
 	if err := pa.Optimise(minLen, minID); err != nil {
-		return "err:optimise"
+		mws := int(util.Log4(float64(target.Len())) - util.Log4(pals.MaxAvgIndexListLen) + 0.5)
+		sd0 := int(float64(minLen) * (1 - minID))
+		return fmt.Sprintf("err:optimise O=%d,%d", mws, sd0)
 	}
 	if err := pa.BuildIndex(); err != nil {
 		return "err:index"
 	}
 	var sb strings.Builder
 	fp := pa.FilterParams
-	fmt.Fprintf(&sb, "P=%d,%d,%d,%d H=", fp.WordSize, fp.MinMatch, fp.MaxError, fp.TubeOffset)
+	// the two float computations at the head of Optimise, repeated here: they are inputs of the
+	// integer model of the parameter search
+	mws := int(util.Log4(float64(target.Len())) - util.Log4(pals.MaxAvgIndexListLen) + 0.5)
+	sd0 := int(float64(minLen) * (1 - minID))
+	fmt.Fprintf(&sb, "P=%d,%d,%d,%d O=%d,%d H=", fp.WordSize, fp.MinMatch, fp.MaxError, fp.TubeOffset, mws, sd0)
 	n := 0
 	for strand, comp := range []bool{false, true} {
 		hits, err := pa.Align(comp)
@@ -350,7 +390,31 @@ func c15NearDiagonal(g *hx.Gen, r int) string {
 	return fmt.Sprintf("pw 1 100 %d 64 - %s -", g.Pick(700, 700, 720), string(g.Letters("acgt", L)))
 }
 
+func c15GenOptimise(g *hx.Gen) {
+	n := g.Scale(3000, 100000)
+	for i := 0; i < n && !g.Done(); i++ {
+		// log-uniform target length 64 .. ~4e6
+		tlen := int(64 * math.Pow(2, 16*g.Float64()))
+		qlen := 0
+		if g.Chance(0.5) {
+			qlen = int(64 * math.Pow(2, 16*g.Float64()))
+		}
+		minLen := g.Pick(5, 8, 12, 20, 50, 100, 150, 200, 400, 1000, 2000)
+		if g.Chance(0.3) {
+			minLen = g.Range(5, 600)
+		}
+		minID := g.Pick(0, 100000, 500000, 700000, 800000, 850000, 900000, 940000, 990000, 1000000)
+		if g.Chance(0.3) {
+			minID = g.Intn(1000001)
+		}
+		mem := g.Pick(0, 0, 1, 16, 64, 512, 8192)
+		off := g.Pick(0, 0, 0, 16, 32, 100)
+		g.Casef("po %d %d %d %d %d %d", tlen, qlen, minLen, minID, mem, off)
+	}
+}
+
 func c15Gen(g *hx.Gen) {
+	c15GenOptimise(g)
 	n := g.Scale(300, 2000)
 	for i := 0; i < n && !g.Done(); i++ {
 		if i%5 == 4 {
